@@ -1057,6 +1057,171 @@ def live_configs(ctx):
                            kx=[kx] if kx else None, suite=suite)
 
 
+# ------------------------------------------------------------------------------------------------
+# the early-data window: TLS 1.3 server after a ClientHello that offers 0-RTT
+
+ED_PSK = [(b"c02-identity", bytearray(b"\x5a" * 32), "sha256")]
+
+
+class OfferEarlyData(object):
+    """make the library client put an (empty) early_data extension next to its pre_shared_key, before the
+    binders are computed (tlslite's client never offers 0-RTT itself); restored on exit"""
+    def __enter__(self):
+        from tlslite.handshakehelpers import HandshakeHelpers
+        from tlslite.extensions import TLSExtension
+        from tlslite.constants import ExtensionType
+        self.hh = HandshakeHelpers
+        self.orig = HandshakeHelpers.__dict__["update_binders"]
+        orig = HandshakeHelpers.update_binders
+
+        def patched(client_hello, *a, **kw):
+            if not client_hello.getExtension(ExtensionType.early_data):
+                ext = TLSExtension(extType=ExtensionType.early_data).create(ExtensionType.early_data, bytearray(0))
+                client_hello.extensions.insert(len(client_hello.extensions) - 1, ext)   # pre_shared_key stays last
+            return orig(client_hello, *a, **kw)
+        HandshakeHelpers.update_binders = staticmethod(patched)
+        return self
+
+    def __exit__(self, *a):
+        self.hh.update_binders = self.orig
+
+
+def ed_handshake(cipher, rs, max_early, inject=None):
+    """PSK handshake, client offering 0-RTT and fragmenting its second flight to `rs` bytes.
+    inject = (position, [records]): the records are put on the wire just before the client's record
+    number `position` (0 = the ClientHello); position None: nothing.  Returns (lab, client records seen)."""
+    seen = []
+
+    def mk(who):
+        st = R.make_settings((3, 4), cipher)
+        st.pskConfigs = list(ED_PSK)
+        if who == "server":
+            st.max_early_data = max_early
+        return st
+    L = R.lab.Lab()
+
+    def flt(direction, t, v, b):
+        out = []
+        if direction == "c2s":
+            if inject is not None and inject[0] == len(seen):
+                out += list(inject[1])
+            seen.append((t, v, bytes(b)))
+            if len(seen) == 1:
+                L.client.conn.recordSize = rs        # everything after the ClientHello is fragmented
+        out.append((t, v, b))
+        return out
+    L.link.record_filter = flt
+    with OfferEarlyData():
+        L.start_client(lambda c: c.handshakeClientCert(settings=mk("client"), async_=True))
+        L.start_server(lambda c: c.handshakeServerAsync(settings=mk("server")))
+        L.run()
+    return L, seen
+
+
+def early_data_case(ctx, cipher, rs, max_early, pos, kind, size):
+    """one undecryptable record of `size` bytes (optionally with an unprotected CCS before / after it) at
+    position `pos` of the client's second flight ('after' = behind the Finished).  Ideal behaviour: while no
+    record has decrypted under the handshake key the server may skip it if fewer than max_early_data bytes
+    were skipped in total; from the first decrypted record on it is fatal bad_record_mac, for good."""
+    rng = ctx.rng
+    label = "3.4/%s/0-RTT offered/recordSize=%d/max_early_data=%d" % (cipher, rs, max_early)
+    rep = dict(stage="ED", cipher=cipher, rs=rs, max_early=max_early, pos=pos, kind=kind, size=size)
+    ctrl, flight = ed_handshake(cipher, rs, max_early)
+    if ctrl.client.state != "done" or ctrl.server.state != "done":
+        ctx.violation("c02:early-data-control-failed", "0-RTT-offering PSK handshake with a fragmented second flight fails "
+                      "without any injection: client %s, server %s [%s]"
+                      % (R.lab.exc_class(ctrl.client.exc), R.lab.exc_class(ctrl.server.exc), label), rep)
+        return
+    enc = [i for i, r in enumerate(flight) if i > 0 and r[0] == 23]
+    if not enc:
+        return
+    first_enc = enc[0]
+    forged = (23, (3, 3), rb(rng, size))
+    ccs = (20, (3, 3), b"\x01")
+    recs = {"forged": [forged], "ccs+forged": [ccs, forged], "forged+ccs": [forged, ccs]}[kind]
+    from tlslite.errors import TLSLocalAlert
+    ctx.case(key=("ED", cipher, rs, max_early, pos, kind, size), sample=None)
+    if pos == "after":
+        L = ctrl
+        for r in recs:
+            L.link.inject("c2s", wire(r))
+        delivered, outcome, exc = drive_read(L, "server", "read")
+        window_open = False
+    else:
+        if pos > len(flight) - 1:
+            return
+        L, _ = ed_handshake(cipher, rs, max_early, inject=(pos, recs))
+        exc = L.server.exc
+        delivered = b""
+        window_open = pos <= first_enc           # nothing has decrypted under the handshake key yet
+    may_skip = window_open and size < max_early
+    fatal = isinstance(exc, TLSLocalAlert) and exc.level == 2 and ALERT_NAME.get(exc.description) == "bad_record_mac"
+    if pos == "after" and kind != "forged":
+        # behind the Finished an unprotected CCS is itself fatal (unexpected_message), whichever comes first
+        fatal = isinstance(exc, TLSLocalAlert) and exc.level == 2 and \
+            ALERT_NAME.get(exc.description) in ("bad_record_mac", "unexpected_message")
+    conn = L.server.conn
+    ctx.count("ED:%s:%s:%s" % ("window-open" if window_open else "window-closed", kind,
+                               R.lab.exc_class(exc) if exc is not None else L.server.state))
+    problems = []
+    if not window_open:
+        # the mutant-proof part: a record has decrypted already, skipping is over for good
+        if not fatal:
+            problems.append("an undecryptable record AFTER a record had decrypted was not fatal bad_record_mac "
+                            "(server: %s %s)" % (L.server.state, R.lab.exc_class(exc) if exc else ""))
+        if not conn.closed:
+            problems.append("server connection not closed")
+        if delivered:
+            problems.append("%d bytes delivered" % len(delivered))
+    else:
+        if fatal and conn.closed:
+            skipped = False
+        elif exc is None and L.server.state == "done" and L.client.state == "done":
+            skipped = True
+            # the skipped record yields nothing and the stream continues exactly
+            L.link.record_filter = None
+            L.write("client", b"after the skipped record")
+            r = L.read("server", None, 24)
+            if r[0] != "ok" or r[1] != b"after the skipped record":
+                problems.append("after skipping, the server read %r" % (r[1] if r[0] == "ok" else R.lab.exc_class(r[1]),))
+        else:
+            skipped = None
+            problems.append("neither skipped nor fatal bad_record_mac: server %s %s, client %s"
+                            % (L.server.state, R.lab.exc_class(exc) if exc else "", L.client.state))
+        if skipped is not None:
+            ctx.compared()
+            if skipped != may_skip:
+                ctx.disagree("early-data-window", dict(rep), "skip" if may_skip else "bad_record_mac",
+                             "skip" if skipped else "bad_record_mac")
+    if problems:
+        ctx.violation("c02:early-data-skip-unsafe:%s" % ("after-decrypt" if not window_open else "window"),
+                      "0-RTT offered, %s of %d bytes at position %s of the client's second flight (first protected record "
+                      "is number %d): %s [%s]" % (kind, size, pos, first_enc, "; ".join(problems), label), rep)
+
+
+def early_data_stream(ctx):
+    """every position of the client's second flight x {forged, CCS+forged, forged+CCS} x sizes within and
+    beyond max_early_data x fragmentations; deterministic, outside any time budget"""
+    ciphers = ["aes128gcm"] + (["chacha20-poly1305"] if ctx.thorough() else [])
+    for cipher in ciphers:
+        for rs, max_early in ((20, 2 ** 14 + 16), (10, 100), (16384, 100)):
+            _, flight = ed_handshake(cipher, rs, max_early)
+            n = len(flight)
+            sizes = [40, max_early - 1, max_early] if max_early <= 100 else [40, 16399, 16400]
+            for pos in list(range(1, n)) + ["after"]:
+                for kind in ("forged", "ccs+forged", "forged+ccs"):
+                    for size in sizes:
+                        if size > 16384 + 256:
+                            continue
+                        try:
+                            early_data_case(ctx, cipher, rs, max_early, pos, kind, size)
+                        except Exception as e:  # noqa: B902
+                            import traceback
+                            ctx.violation("c02:exception", "exception in the early-data stream: %s: %s" % (type(e).__name__, e),
+                                          dict(stage="exception", traceback=traceback.format_exc()[-1500:]))
+
+
+
 def directed_classes(ctx, cfg, i):
     """every directed mutation class of one configuration at connection level (fresh handshake each)"""
     rng = ctx.rng
@@ -1168,6 +1333,7 @@ def run(ctx):
                        "early_data_ok (TLS 1.3 server right after ClientHello) makes undecryptable records non-fatal by design; "
                        "covered by the toy stream and early_data_skip_safe, not by the live streams (which start after the handshake)"]
     # directed / deterministic families first and outside any time budget; the random toy bulk last
+    early_data_stream(ctx)
     live_streams(ctx)
     ctx.extra.pop("_variant", None)
     toy_keyed(ctx)
@@ -1179,6 +1345,8 @@ def replay(ctx, rep):
     st = inp.get("stage")
     if st == "L1":
         live_recordlayer(ctx, ucfg(inp["cfg"]), inp["receiver"], only_spec=inp["spec"], variant=inp.get("variant", 0))
+    elif st == "ED":
+        early_data_case(ctx, inp["cipher"], inp["rs"], inp["max_early"], inp["pos"], inp["kind"], inp["size"])
     elif st == "toy-keyed":
         toy_keyed(ctx)
     elif st == "L2":
